@@ -601,12 +601,30 @@ def r04_8(ctx: Ctx) -> None:
     func = ctx.fn(LOC, qual)
     cfg = CFG(func)
     done = False
-    for loop in [n for n in walk_local(func) if isinstance(n, ast.For) and isinstance(n.target, ast.Name)]:
+    for loop in [n for n in walk_local(func) if isinstance(n, ast.For)]:
         stores = [n for n in walk_local(loop) if isinstance(n, ast.Assign) and isinstance(n.targets[0], ast.Subscript)
                   and txt(n.targets[0].slice) == "-1"]
         if not stores:
             continue
         kept = txt(stores[0].targets[0].value)
+        if isinstance(loop.target, ast.Tuple):
+            # the pairwise idiom `for previous, part in zip(parts, parts[1:])`: the partner is the previous *input* part
+            it = loop.iter
+            pairwise = isinstance(it, ast.Call) and call_name(it) == "zip" and len(it.args) == 2 and len(loop.target.elts) == 2 \
+                and all(isinstance(e, ast.Name) for e in loop.target.elts) and isinstance(it.args[1], ast.Subscript) \
+                and isinstance(it.args[1].slice, ast.Slice) and txt(it.args[1].value) == txt(it.args[0]) and txt(it.args[0]) != kept
+            if not pairwise:
+                continue
+            first, second = (e.id for e in loop.target.elts)  # type: ignore[attr-defined]
+            compared = any(isinstance(x, ast.Compare) and first in txt(x) and second in txt(x) for x in walk_local(loop))
+            if compared:
+                ctx.ob("R04.8", LOC, loop, qual, "abutting parts join the last merged part", False,
+                       "after the shift a part is joined to the last merged part when it starts where that one ends; comparing with the "
+                       "previous *input* part instead loses the start of a run of three abutting parts",
+                       detail=f"`{first}` walks the input parts ({txt(it.args[0])}), not `{kept}` - join{{[850:900),[900:1000),[0:100)}} "
+                       "shifted by -800 on a ring of 1000 becomes [100:300) instead of [50:300)", form=f"for {first}, {second} in {txt(it)}")
+                done = True
+            continue
         from ..loopview import view as _loop_view
         lview = _loop_view(func, loop.iter, loop.target, loop.body)
         cur = lview.elem if lview is not None and lview.elem else loop.target.id
